@@ -653,7 +653,7 @@ func ruleFilterNoAliasing(w *World, r *Report) {
 			}
 		}
 	}
-	r.Expect("bucket stores in BytesFilter implementations", n, 3)
+	r.Expect("bucket stores in BytesFilter implementations", n, 2)
 }
 
 // ---- C19-T ---------------------------------------------------------------------------------------
